@@ -126,7 +126,8 @@ Definition visit_Compare (op : pycmp) (l r : rep) : result rep :=
 
 (* mirrors ast_to_cpp_translator.py: visit_Constant (int / bool; str and float constants are leaves here,
    their text is C18's subject) *)
-Definition visit_Constant_int (z : Z) : rep := mk_rep (EInt z) TInt.
+Definition visit_Constant_int (z : Z) : rep := mk_rep (EInt z) TInt.        (* declared int whatever the magnitude *)
+Definition int_constant_refused (z : Z) : bool := (9223372036854775808 <=? Z.abs z)%Z.   (* abs(value) >= 2**63: ValueError *)
 Definition visit_Constant_bool (b : bool) : rep := mk_rep (EBool b) TBool.
 Definition visit_Constant_float (text : string) : rep := mk_rep (ELeaf text) TDouble.
 
@@ -172,7 +173,7 @@ Inductive aexpr :=
 Fixpoint translate (a : aexpr) : result rep :=
   match a with
   | ALeaf t ty => OK (mk_rep (ELeaf t) ty)
-  | AInt z => OK (visit_Constant_int z)
+  | AInt z => if int_constant_refused z then Error ErrValue else OK (visit_Constant_int z)
   | ABool b => OK (visit_Constant_bool b)
   | ABin op l r => match assoc_s (pybinop_name op) known_binary_operators with
                    | None => if is_Pow op then do l' <- translate l; do r' <- translate r; visit_special_BinOp op l' r'
@@ -192,6 +193,10 @@ Fixpoint translate (a : aexpr) : result rep :=
 
 (* C++ int is 32 bits; signed overflow is undefined and modelled as "no value" *)
 Definition int_ok (z : Z) : bool := ((-2147483648 <=? z) && (z <=? 2147483647))%Z.
+(* an integer literal that does not fit int has type long (64 bits, LP64) [lex.icon] *)
+Definition long_ok (z : Z) : bool := ((-9223372036854775808 <=? z) && (z <=? 9223372036854775807))%Z.
+(* long -> int conversion keeps the low 32 bits *)
+Definition wrap32 (z : Z) : Z := ((z + 2147483648) mod 4294967296 - 2147483648)%Z.
 
 (* comparison kinds and arithmetic kinds the C++ tokens denote *)
 Inductive carith := CAdd | CSub | CMul | CDiv | CRem.
@@ -224,37 +229,52 @@ Section Semantics.
   Variable narrow32 : F -> F.                    (* round to nearest binary32 *)
 
   (* a value of one of the declared value types *)
-  Inductive val := VBool (b : bool) | VInt (z : Z) | VFlt (x : F) | VDbl (x : F).
+  (* VLong: the C++ value of a wide integer literal; nothing is ever *declared* long *)
+  Inductive val := VBool (b : bool) | VInt (z : Z) | VFlt (x : F) | VDbl (x : F) | VLong (z : Z).
   Definition type_of (v : val) : ctype :=
-    match v with VBool _ => TBool | VInt _ => TInt | VFlt _ => TFloat | VDbl _ => TDouble end.
-  Definition in_range (v : val) : bool := match v with VInt z => int_ok z | _ => true end.
+    match v with VBool _ => TBool | VInt _ => TInt | VFlt _ => TFloat | VDbl _ => TDouble | VLong _ => TOther "long" end.
+  Definition in_range (v : val) : bool := match v with VInt z => int_ok z | VLong z => long_ok z | _ => true end.
   Definition truthy (v : val) : bool :=
-    match v with VBool b => b | VInt z => negb (z =? 0)%Z | VFlt x => negb (fzero x) | VDbl x => negb (fzero x) end.
+    match v with VBool b => b | VInt z => negb (z =? 0)%Z | VFlt x => negb (fzero x) | VDbl x => negb (fzero x)
+               | VLong z => negb (z =? 0)%Z end.
 
   (* ---- C++ ---- *)
   (* operand after the integral promotions *)
-  Inductive anum := AI (z : Z) | AF (x : F) | AD (x : F).
+  Inductive anum := AI (z : Z) | AF (x : F) | AD (x : F) | AL (z : Z).
   Definition promote (v : val) : anum :=
-    match v with VBool b => AI (Z.b2z b) | VInt z => AI z | VFlt x => AF x | VDbl x => AD x end.
-  Definition to_dbl (a : anum) : F := match a with AI z => of_Z z | AF x => x | AD x => x end.
-  Definition to_flt (a : anum) : F := match a with AI z => narrow32 (of_Z z) | AF x => x | AD x => narrow32 x end.
+    match v with VBool b => AI (Z.b2z b) | VInt z => AI z | VFlt x => AF x | VDbl x => AD x | VLong z => AL z end.
+  Definition to_dbl (a : anum) : F := match a with AI z => of_Z z | AF x => x | AD x => x | AL z => of_Z z end.
+  Definition to_flt (a : anum) : F :=
+    match a with AI z => narrow32 (of_Z z) | AF x => x | AD x => narrow32 x | AL z => narrow32 (of_Z z) end.
+  Definition a_int (a : anum) : Z := match a with AI z => z | AL z => z | _ => 0%Z end.
+  Definition is_AD (a : anum) : bool := match a with AD _ => true | _ => false end.
+  Definition is_AF (a : anum) : bool := match a with AF _ => true | _ => false end.
   Definition mk_int (z : Z) : option val := if int_ok z then Some (VInt z) else None.
+  Definition mk_long (z : Z) : option val := if long_ok z then Some (VLong z) else None.
 
   Definition f_arith (o : carith) : option (F -> F -> F) :=
     match o with CAdd => Some fadd | CSub => Some fsub | CMul => Some fmul | CDiv => Some fdiv
                | CRem => None (* % needs integral operands: ill-formed *) end.
 
-  (* usual arithmetic conversions [expr.arith.conv]: double if either is, else float if either is, else int *)
+  (* usual arithmetic conversions [expr.arith.conv]: double if either is, else float if either is, else
+     long if either is, else int *)
   Definition cxx_arith (o : carith) (a b : anum) : option val :=
-    match a, b with
+    if is_AD a || is_AD b then option_map (fun f => VDbl (f (to_dbl a) (to_dbl b))) (f_arith o)
+    else if is_AF a || is_AF b then option_map (fun f => VFlt (narrow32 (f (to_flt a) (to_flt b)))) (f_arith o)
+    else match a, b with
     | AI x, AI y =>
         match o with
         | CAdd => mk_int (x + y) | CSub => mk_int (x - y) | CMul => mk_int (x * y)
         | CDiv => if (y =? 0)%Z then None else mk_int (Z.quot x y)
         | CRem => if (y =? 0)%Z then None else if int_ok (Z.quot x y) then Some (VInt (Z.rem x y)) else None
         end
-    | AD _, _ | _, AD _ => option_map (fun f => VDbl (f (to_dbl a) (to_dbl b))) (f_arith o)
-    | _, _ => option_map (fun f => VFlt (narrow32 (f (to_flt a) (to_flt b)))) (f_arith o)
+    | _, _ =>
+        let x := a_int a in let y := a_int b in
+        match o with
+        | CAdd => mk_long (x + y) | CSub => mk_long (x - y) | CMul => mk_long (x * y)
+        | CDiv => if (y =? 0)%Z then None else mk_long (Z.quot x y)
+        | CRem => if (y =? 0)%Z then None else if long_ok (Z.quot x y) then Some (VLong (Z.rem x y)) else None
+        end
     end.
 
   Definition z_cmp (o : ccmp) (x y : Z) : bool :=
@@ -264,17 +284,16 @@ Section Semantics.
     match o with CLt => fltb x y | CLe => fleb x y | CGt => fltb y x | CGe => fleb y x
                | CEq => feqb x y | CNe => negb (feqb x y) end.
   Definition cxx_cmp (o : ccmp) (a b : anum) : val :=
-    match a, b with
-    | AI x, AI y => VBool (z_cmp o x y)
-    | AD _, _ | _, AD _ => VBool (f_cmp o (to_dbl a) (to_dbl b))
-    | _, _ => VBool (f_cmp o (to_flt a) (to_flt b))
-    end.
+    if is_AD a || is_AD b then VBool (f_cmp o (to_dbl a) (to_dbl b))
+    else if is_AF a || is_AF b then VBool (f_cmp o (to_flt a) (to_flt b))
+    else VBool (z_cmp o (a_int a) (a_int b)).
 
   Definition cxx_unary (o : cun) (v : val) : option val :=
     match o with
     | CNot => Some (VBool (negb (truthy v)))
-    | CPlus => match promote v with AI z => Some (VInt z) | AF x => Some (VFlt x) | AD x => Some (VDbl x) end
-    | CMinus => match promote v with AI z => mk_int (- z) | AF x => Some (VFlt (fneg x)) | AD x => Some (VDbl (fneg x)) end
+    | CPlus => match promote v with AI z => Some (VInt z) | AF x => Some (VFlt x) | AD x => Some (VDbl x) | AL z => Some (VLong z) end
+    | CMinus => match promote v with AI z => mk_int (- z) | AF x => Some (VFlt (fneg x)) | AD x => Some (VDbl (fneg x))
+                                   | AL z => mk_long (- z) end
     end.
 
   (* <cmath> std::pow [c.math]: float overload only when both arguments are float; any integral or
@@ -291,9 +310,11 @@ Section Semantics.
     match t with
     | TDouble => Some (VDbl (to_dbl (promote v)))
     | TFloat => Some (VFlt (to_flt (promote v)))
-    | TInt => match promote v with AI z => Some (VInt z) | _ => None end
+    | TInt => match promote v with AI z => Some (VInt z) | AL z => Some (VInt (wrap32 z)) | _ => None end
     | TBool => Some (VBool (truthy v))
-    | TOther _ => None
+    | TOther n => if String.eqb n "long"
+                  then match promote v with AI z => Some (VLong z) | AL z => Some (VLong z) | _ => None end
+                  else None
     end.
 
   Definition env := string -> option val.
@@ -301,7 +322,7 @@ Section Semantics.
   Fixpoint cxx_eval (E : env) (e : cexpr) : option val :=
     match e with
     | ELeaf t => E t
-    | EInt z => mk_int z
+    | EInt z => if int_ok z then Some (VInt z) else mk_long z      (* a wide literal is a long *)
     | EBool b => Some (VBool b)
     | EBin tok l r =>
         match cxx_eval E l, cxx_eval E r with
@@ -362,14 +383,15 @@ Section Semantics.
      there; '/' is always the division of doubles; '**' is never an integer operation and yields a double. *)
   Inductive width := W0 | W32 | W64.
   Definition width_of (v : val) : width :=
-    match v with VBool _ | VInt _ => W0 | VFlt _ => W32 | VDbl _ => W64 end.
+    match v with VBool _ | VInt _ | VLong _ => W0 | VFlt _ => W32 | VDbl _ => W64 end.
   Definition wmax (a b : width) : width :=
     match a, b with W64, _ | _, W64 => W64 | W32, _ | _, W32 => W32 | _, _ => W0 end.
-  Definition py_int (v : val) : Z := match v with VBool b => Z.b2z b | VInt z => z | _ => 0%Z end.
+  Definition py_int (v : val) : Z := match v with VBool b => Z.b2z b | VInt z => z | VLong z => z | _ => 0%Z end.
   Definition at32 (v : val) : F :=
-    match v with VBool b => narrow32 (of_Z (Z.b2z b)) | VInt z => narrow32 (of_Z z) | VFlt x => x | VDbl x => narrow32 x end.
+    match v with VBool b => narrow32 (of_Z (Z.b2z b)) | VInt z => narrow32 (of_Z z) | VFlt x => x | VDbl x => narrow32 x
+               | VLong z => narrow32 (of_Z z) end.
   Definition at64 (v : val) : F :=
-    match v with VBool b => of_Z (Z.b2z b) | VInt z => of_Z z | VFlt x => x | VDbl x => x end.
+    match v with VBool b => of_Z (Z.b2z b) | VInt z => of_Z z | VFlt x => x | VDbl x => x | VLong z => of_Z z end.
   Definition py_is_zero (v : val) : bool := negb (truthy v).
 
   Definition py_lift (zop : Z -> Z -> Z) (fop : F -> F -> F) (a b : val) : val :=
@@ -397,9 +419,9 @@ Section Semantics.
 
   Definition py_unary (op : pyunop) (a : val) : option val :=
     match op with
-    | UAdd => Some (match a with VBool b => VInt (Z.b2z b) | _ => a end)
+    | UAdd => Some (match a with VBool b => VInt (Z.b2z b) | VLong z => VInt z | _ => a end)
     | USub => Some (match a with VBool b => VInt (- Z.b2z b) | VInt z => VInt (- z)
-                               | VFlt x => VFlt (fneg x) | VDbl x => VDbl (fneg x) end)
+                               | VFlt x => VFlt (fneg x) | VDbl x => VDbl (fneg x) | VLong z => VInt (- z) end)
     | Not => Some (VBool (negb (truthy a)))
     | OtherUn _ => None
     end.
@@ -460,6 +482,7 @@ Arguments VBool {F} b.
 Arguments VInt {F} z.
 Arguments VFlt {F} x.
 Arguments VDbl {F} x.
+Arguments VLong {F} z.
 Arguments type_of {F} v.
 Arguments in_range {F} v.
 
